@@ -328,6 +328,33 @@ def run(ctx):
                    "attaches the span of the previous token (wrong line, and it does not move with the literal)"
                    % (f_.path.split("::")[-1], c_.name.split("::")[-1]), f_.where(c_.bb))
     ctx.count("C14.F9 fallible helper calls in the tokenizer", nl)
+    # F10 (after seed C14-7): spans and offsets index the text the tokenizer walked; `template_source()` and the debug
+    # excerpt show the text the template was given.  They are the same text only if nobody hands the parser / code
+    # generator a string *derived* from the source (a stripped BOM, a trimmed prefix, a normalised copy): every source
+    # argument of the parser entry points, of `CodeGenerator::new` and of `attach_basic_debug_info` is the caller's own
+    # parameter (or capture) or the stored source of compiled instructions, never the result of another call.
+    n10 = 0
+    for name_, idx_ in (("minijinja::compiler::parser::parse", 0), ("minijinja::compiler::parser::parse_expr", 0),
+                        ("minijinja::compiler::codegen::CodeGenerator::new", 1), ("minijinja::error::attach_basic_debug_info", 1)):
+        for c_ in prog.callers().get(name_, []):
+            if len(c_.args) <= idx_:
+                continue
+            n10 += 1
+            bad_ = []
+            for o_ in flow.origins(c_.fn, c_.args[idx_]):
+                if o_.kind == "arg":
+                    continue
+                if o_.kind == "call" and o_.call.name in prog.fns and prog.fns[o_.call.name].crate == "minijinja" \
+                        and o_.call.name.split("::")[-1] == "source":
+                    continue
+                bad_.append(o_.call.name.split("::")[-1] if o_.kind == "call" else o_.kind)
+            k_ = sum(1 for x in prog.callers().get(name_, []) if x.fn is c_.fn and x.bb <= c_.bb)
+            ctx.ob("C14.F10.positions-index-the-text-that-is-shown", "%s|%s#%d" % (c_.fn.path.split("::")[-1] if c_.fn.kind != "closure" else c_.fn.path,
+                                                                                     name_.split("::")[-1], k_), not bad_,
+                   "%s is given a text computed by %s instead of the template source itself: byte ranges and lines of "
+                   "errors are relative to that text, while the error shows the original source" % (name_.split("::")[-1], ", ".join(bad_)),
+                   c_.fn.where(c_.bb))
+    ctx.floor("C14.F10 places that hand the template source to the parser / generator / debug info", n10, 7)
     ctx.sample({"Err exits": len(errs), "process_err calls": len(perr)})
 
 
